@@ -54,6 +54,7 @@ def run(ctx):
                 for gname in ("future_group", "stream_group"):
                     grouplike.rule_insert(ctx, M, gname, "C20.COVER")
                     grouplike.rule_remove(ctx, M, gname, "C20.COVER")
+                    grouplike.rule_extend(ctx, M, gname, "C20.COVER")
                 gu = grouplike.group_unit(M, "future_group")
                 if gu is not None:
                     c11.rule_done(ctx, M, gu)
